@@ -89,11 +89,24 @@ def main(ctx, replay=None):
         if got != want:
             ctx.violation(f"evec_sort does not recover the permutation for n={n} (complex={cplx}, perturbation {eps:.3f})", {"n": n, "perm": perm.tolist()},
                           {"clause": "constructed"})
-    for bad in (([1, 2], [[1, 0], [0, 1]], [[1, 0, 0], [0, 1, 0]]), ([1, 2, 3], [[1, 0], [0, 1]], [[1, 0], [0, 1]])):
-        ctx.count({"mismatch": [len(bad[0]), len(bad[1]), len(bad[2])]})
+    # dimension mismatches: n items need two n x n vector sets; every other combination of shapes is rejected - also when both sets
+    # have the SAME wrong shape, and whether the sets are lists or arrays
+    bads = [([1, 2], [[1, 0], [0, 1]], [[1, 0, 0], [0, 1, 0]]), ([1, 2, 3], [[1, 0], [0, 1]], [[1, 0], [0, 1]])]
+    for n in (2, 3, 5):
+        for rows, cols in ((n, n + 1), (n, n - 1), (n, 2 * n), (n + 1, n), (n - 1, n), (n + 1, n + 1)):
+            A = rng.normal(size=(rows, cols))
+            B = rng.normal(size=(rows, cols))
+            bads.append((list(range(n)), A.tolist(), B.tolist()))
+            bads.append((list(range(n)), A, B))
+        bads.append((list(range(n)), numpy.eye(n).tolist(), rng.normal(size=(n, n + 1)).tolist()))
+        bads.append((list(range(n)), rng.normal(size=(n + 1, n)).tolist(), numpy.eye(n).tolist()))
+    for bad in bads:
+        shapes = [len(bad[0]), list(numpy.shape(bad[1])), list(numpy.shape(bad[2])), type(bad[1]).__name__]
+        ctx.count({"mismatch": shapes})
         try:
             evec_sort(*bad)
-            ctx.violation("evec_sort accepts mismatching dimensions", {"shapes": [len(bad[0]), len(bad[1]), len(bad[2])]}, {"clause": "sort_mismatch"})
+            ctx.violation(f"evec_sort accepts mismatching dimensions: {shapes[0]} items with vector sets of shapes {shapes[1]} and {shapes[2]} ({shapes[3]})",
+                          {"shapes": shapes}, {"clause": "sort_mismatch"})
         except Exception:
             pass
     disp2eig(ctx, rng, evec_disp2eig)
@@ -118,12 +131,32 @@ def disp2eig(ctx, rng, evec_disp2eig):
             continue
         if E.shape != U.shape or not numpy.allclose(E, U, atol=1e-10) or not numpy.allclose(E @ E.conj().T, numpy.eye(3 * N), atol=1e-10):
             ctx.violation(f"evec_disp2eig does not restore the unit-norm mass-weighted eigenvectors for N={N} (complex={cplx})", {"N": N}, {"clause": "disp_value"})
-    ctx.count({"disp_mismatch": 1})
-    try:
-        evec_disp2eig(numpy.ones((6, 6)), [1.0, 2.0, 3.0])
-        ctx.violation("evec_disp2eig accepts a displacement matrix whose width is not 3N", {}, {"clause": "disp_mismatch"})
-    except Exception:
-        pass
+    # M x 3N matrices with any number M of vectors are valid input (each row comes back with unit norm) ...
+    for M, N in ((1, 2), (5, 3), (13, 4), (7, 1)):
+        mass = rng.uniform(1.0, 240.0, N)
+        D = rng.normal(size=(M, 3 * N)) * 10.0 ** rng.uniform(-6, 4, (M, 1))
+        ctx.count({"disp_rows": [M, N]})
+        try:
+            E = numpy.asarray(evec_disp2eig(D.copy(), list(mass)))
+        except Exception as ex:
+            ctx.violation(f"evec_disp2eig raised {ex!r} for {M} vectors of {N} atoms", {"M": M, "N": N}, {"clause": "disp_raises"})
+            continue
+        W = D * numpy.sqrt(numpy.repeat(mass, 3))[None, :]
+        W = W / numpy.linalg.norm(W, axis=1)[:, None]
+        if E.shape != D.shape or not numpy.allclose(E, W, atol=1e-10):
+            ctx.violation(f"evec_disp2eig does not return the unit-norm mass-weighted vectors for {M} vectors of {N} atoms", {"M": M, "N": N}, {"clause": "disp_value"})
+    # ... and any matrix whose row length is not 3N is rejected, whatever its number of rows
+    for N in (1, 3, 4):
+        for shape in ((6, 6) if N == 3 else (3 * N, 3 * N + 3), (3 * N, 3 * N + 1), (3 * N, 3 * N - 1), (3 * N, 1), (3 * N, 6 * N), (2, 3 * N + 3), (3 * N + 3, 3 * N - 3)):
+            if shape[1] == 3 * N or shape[1] < 1:
+                continue
+            ctx.count({"disp_mismatch": [N, list(shape)]})
+            try:
+                evec_disp2eig(numpy.ones(shape) + rng.normal(size=shape), list(rng.uniform(1, 50, N)))
+                ctx.violation(f"evec_disp2eig accepts a {shape[0]} x {shape[1]} displacement matrix for {N} atoms (row length is not 3N)", {"N": N, "shape": list(shape)},
+                              {"clause": "disp_mismatch"})
+            except Exception:
+                pass
 
 
 def render_eig(lines, vals):
